@@ -8,7 +8,7 @@ import (
 
 	"ariga.io/atlas/schemahcl"
 	"ariga.io/atlas/sql/mysql"
-	_ "ariga.io/atlas/sql/postgres"
+	"ariga.io/atlas/sql/postgres"
 	"ariga.io/atlas/sql/schema"
 	"ariga.io/atlas/sql/sqlite"
 
@@ -30,7 +30,7 @@ func allOps() []*dops {
 	return []*dops{
 		{"sqlite", sqlite.TypeRegistry, sqlite.FormatType, sqlite.ParseType, sqlite.MarshalHCL.MarshalSpec, sqlite.EvalHCLBytes, sqlite.DefaultDiff},
 		{"mysql", mysql.TypeRegistry, mysql.FormatType, mysql.ParseType, mysql.MarshalHCL.MarshalSpec, mysql.EvalHCLBytes, mysql.DefaultDiff},
-		//{"postgres", postgres.TypeRegistry, postgres.FormatType, postgres.ParseType, postgres.MarshalHCL.MarshalSpec, postgres.EvalHCLBytes, postgres.DefaultDiff},
+		{"postgres", postgres.TypeRegistry, postgres.FormatType, postgres.ParseType, postgres.MarshalHCL.MarshalSpec, postgres.EvalHCLBytes, postgres.DefaultDiff},
 	}
 }
 
